@@ -179,7 +179,8 @@ func (g *Gen) WrapOp(op string, kid *R, depth int) *R {
 	case "http":
 		return g.node(op, nil, []int{[]int{200, 404, 500, 0}[g.rng.Intn(4)]}, kid)
 	case "grpc":
-		return g.node(op, nil, []int{1 + g.rng.Intn(16)}, kid)
+		// codes.OK (0) included: its payload message is all defaults and marshals to zero bytes
+		return g.node(op, nil, []int{g.rng.Intn(17)}, kid)
 	case "pkgwithmessage", "syscallerr":
 		return g.node(op, []string{g.word()}, nil, kid)
 	case "patherr":
